@@ -64,6 +64,8 @@ def objdef_repr(d) -> str:
         return 'LabObj(' + ', '.join(f'{k}={py_repr(v)}' for k, v in sorted(args.items())) + ')'
     if name == 'LabObjPlain':
         return f'LabObjPlain(x={py_repr(kw["x"])})'
+    if name == 'LabChainObj':
+        return f'LabChainObj(a={py_repr(kw["a"])})'
     if name == 'LabObjSet':
         return 'LabObjSet(tags=<set: iteration order is interpreter dependent, no frozen text>)'
     raise ValueError(f'unknown lab object {name}')
